@@ -564,8 +564,71 @@ def shared_and_live_argument_cases(ctx):
                           {"suite": "c11-live-weights", "mode": mode, "values": values, "hot": hot})
 
 
+def seeded_outside_chance_cases(ctx):
+    """Randomised classes that live outside chance.py but are PStochasticPattern subclasses (PCreep with prob < 1,
+    PLSystem with '?' tokens, PArpeggiator.RANDOM): the clauses of the property on the real objects — same seed, same
+    sequence (second instance, reset(), re-seeding), whatever is drawn elsewhere in between."""
+    r = ctx.rng
+    for i in range(ctx.scale(120, 6000)):
+        kind = r.choice(["PCreep", "PCreep", "PLSystem", "PLSystem", "PArpeggiator"])
+        if kind == "PCreep":
+            a = (r.randint(-5, 5), r.randint(1, 3), r.randint(1, 5), r.randint(1, 3), r.randint(1, 4), r.choice([0.0, 0.25, 0.5, 0.75, 1.0]))
+            make = lambda: iso.PCreep(iso.PSeries(a[0], a[1]), a[2], min(a[3], a[2]), a[4], a[5])
+        elif kind == "PLSystem":
+            rule = "N" + "".join(r.choice(["N", "+", "-", "?", "?", "[+N]", "[?N]", "[-N?N]"]) for _ in range(r.randint(1, 6)))
+            depth = r.randint(1, 3)
+            a = (rule, depth)
+            make = lambda: iso.PLSystem(rule, depth)
+        else:
+            chord = [r.randint(0, 24) for _ in range(r.randint(1, 8))]
+            a = (tuple(chord),)
+            make = lambda: iso.PArpeggiator(list(chord), iso.PArpeggiator.RANDOM)
+        seed = r.randrange(1 << 30)
+        n = r.randint(6, 40)
+        k = r.choice([1, 2, 5, n])
+        replay = {"suite": "c11-outside", "class": kind, "args": list(a), "seed": seed, "n": n}
+
+        def fresh():
+            p = make()
+            p.seed(seed)
+            p.reset()
+            return p
+        base = toks(outcomes(fresh(), n))
+        ctx.case(("outside", kind, repr(a), seed, n), nontrivial=True, validated=False,
+                 sample={"part": "outside-chance", "class": kind, "args": repr(a)[:120], "out": " ".join(base)[:120]})
+        ctx.count("outside:" + kind)
+        if toks(outcomes(fresh(), n)) != base:
+            ctx.violation("C11:reproducible:%s" % kind, "two instances with the same arguments and seed differ", replay)
+            continue
+        p = fresh()
+        outcomes(p, k)
+        p.reset()
+        if toks(outcomes(p, n)) != base:
+            ctx.violation("C11:reset:%s" % kind, "after %d steps and reset() the sequence differs from a new instance's" % k, replay)
+        p = fresh()
+        outcomes(p, k)
+        p.seed(seed)
+        p.reset()
+        if toks(outcomes(p, n)) != base:
+            ctx.violation("C11:reseed:%s" % kind, "re-seeded with the same seed after %d steps, the sequence differs" % k, replay)
+        out, touched = isolation_run(r, fresh, n)
+        if touched:
+            ctx.violation("C11:isolation:%s" % kind, "next() changed the state of the global random generator", replay)
+        elif out != base:
+            ctx.violation("C11:isolation:%s" % kind, "output changed when other generators were used between the steps", replay)
+        # supports
+        vals = [o[1] for o in outcomes(fresh(), n) if o[0] == "val"]
+        if kind == "PArpeggiator" and any(v not in a[0] for v in vals):
+            ctx.violation("C11:range:PArpeggiator", "a random arpeggio left its chord: %s not in %s" % (vals[:10], a[0]), replay)
+        if kind == "PLSystem":
+            ints = [v for v in vals if v is not None]
+            if any(not isinstance(v, int) for v in ints):
+                ctx.violation("C11:range:PLSystem", "non-integer state: %s" % ints[:10], replay)
+
+
 def run(ctx):
     seed_forms_cases(ctx)
+    seeded_outside_chance_cases(ctx)
     shared_and_live_argument_cases(ctx)
     part_a(ctx)
     part_b(ctx)
